@@ -493,6 +493,22 @@ def dg_one_sided(c, degree=1):
 
 
 @builder
+def int_literals(c, degree=1):
+    """Sub-expressions whose operands are all integer literals (branches of conditionals): their values are still real numbers
+    (no integer division, no truncation of math functions)."""
+    V = c.V("Lagrange", degree)
+    v = TestFunction(V)
+    f = Coefficient(V)
+    k = Constant(c.mesh)
+    cnd = ufl.lt(f, 0.1)
+    c13 = conditional(cnd, 1, 3)
+    c23 = conditional(ufl.gt(f, -0.2), 2, 3)
+    t = (c13 / 2 + sqrt(c23) + c13 / c23 + exp(conditional(cnd, -1, 1)) + abs(conditional(cnd, -3, 2)) / 4 + conditional(cnd, 1, 2) ** 2 / 3
+         + ufl.max_value(c13, c23) / 7 + conditional(cnd, 7, 2) / k + f * conditional(cnd, 5, 2) / 3)
+    return t * v * dx + (c13 / 2) * v * ds
+
+
+@builder
 def cond_ties(c, degree=1, facets=False):
     """Every comparison operator with operands that can be exactly equal at run time: the same subexpression on both
     sides, two constants, a constant against a literal, a coefficient against literal zero.  With the fixed data
@@ -1425,6 +1441,12 @@ def unsupported(c, which="zero"):
         return Circumradius(c.mesh) * v * dx
     if which == "bessel_I":
         return ufl.bessel_I(1, 1.5 + f) * v * dx
+    if which == "bessel_K":
+        return ufl.bessel_K(0, 1.5 + f) * v * dx
+    if which == "bessel_J_real_order":
+        return ufl.bessel_J(0.5, 1.5 + 0.3 * f) * v * dx
+    if which == "bessel_Y_real_order":
+        return ufl.bessel_Y(1.5, 1.5 + 0.3 * f) * v * dx
     if which == "three_arguments":
         w3 = ufl.Argument(V, 2)
         return u * v * w3 * dx
@@ -1509,6 +1531,24 @@ def family_zoo(c, family="CR", degree=1, variant=None, discontinuous=False, ityp
     if itype == "exterior_facet":
         return (1.0 + inner(f, f)) * inner(u, v) * ds
     return inner(jump(u), jump(v)) * dS + inner(f("+"), f("-")) * inner(u("+"), v("-")) * dS
+
+
+ARG_PAIRS = [(("iso", 1), ("Lagrange", 2)), (("Lagrange", 2), ("iso", 1)), (("iso", 2), ("DG", 1)), (("DG", 0), ("iso", 1)), (("CR", 1), ("Lagrange", 1)),
+             (("Lagrange", 1), ("bubble", 3)), (("DG", 2), ("Lagrange", 1))]
+
+
+@builder
+def arg_pair(c, test=("iso", 1), trial=("Lagrange", 2), itype="cell"):
+    """Bilinear forms whose test and trial spaces are DIFFERENT elements (different polyset types, degrees, continuity): anything
+    derived from 'the' argument elements (quadrature polyset, table sizes, block shapes) must take both into account."""
+    Vt, Vu = c.V(test[0], test[1]), c.V(trial[0], trial[1])
+    u, v = TrialFunction(Vu), TestFunction(Vt)
+    f = Coefficient(Vu)
+    if itype == "cell":
+        return (1.0 + f * f) * u * v * dx + inner(grad(u), grad(v)) * dx
+    if itype == "exterior_facet":
+        return (1.0 + f * f) * u * v * ds
+    return (1.0 + f("+") * f("-")) * u("+") * v("-") * dS + avg(u) * avg(v) * dS
 
 
 @builder
